@@ -20,6 +20,7 @@ type Event struct {
 
 // ReqRec is the record of one client request (derived while the run proceeds).
 type ReqRec struct {
+	Idx       int
 	Op        int
 	Task      int
 	Key       string
@@ -71,6 +72,8 @@ type UpRec struct {
 }
 
 type StoreRec struct {
+	URL     string
+	name    string
 	Serial  int
 	Task    int
 	Op      string
@@ -80,21 +83,24 @@ type StoreRec struct {
 	DoneSeq int
 	T       int64
 	Len     int
+	OutLen  int
 	TTLms   int64
 	Err     string
 }
 
 type MiscRec struct {
-	Kind      string // purge | reload | sleep | crash | stop | health
-	Op        int
-	Task      int
-	InvokeSeq int
-	InvokeT   int64
-	ReturnSeq int
-	ReturnT   int64
-	Cache     string
-	Key       string
-	Text      string
+	Kind        string // purge | reload | sleep | crash | stop | health
+	Op          int
+	Task        int
+	InvokeSeq   int
+	InvokeT     int64
+	ReturnSeq   int
+	ReturnT     int64
+	Cache       string
+	Key         string
+	Text        string
+	DiskChecked bool
+	DiskHas     bool
 }
 
 type History struct {
